@@ -169,6 +169,17 @@ def slots_c04_group(tier):
     return ([at(filter_(bin_("!=", a, lit(None))), 2), at(sort(("desc", "k")), 2)]
             + [at(g, 3) for g in gsteps] + [at(f, 4) for f in followers])
 
+def slots_c04_join(tier):
+    """sort -> join (which retains the order of its left input) -> window function: the order the function sees is the one
+    in effect before the join (seeded change c04g-1: the flattener forgot the sort at a join)"""
+    sorts, wsteps, gsteps, followers = _c04_parts(tier)
+    ws = [w for w in wsteps if (w["op"] == "derive" or (w["op"] == "window" and w["pipe"][0]["op"] == "derive"))]
+    if tier == "quick":
+        ws = ws[::2]
+    joins = [join("inner", [from_("u")], eqcol("k")), join("left", [from_("u")], eqcol("k"), explicit=True),
+             join("inner", [from_("u"), select(item("k"), item("c"))], eqcol("k"), alias="u")]
+    return [at(x, 2) for x in sorts] + [at(j, 3) for j in joins] + [at(w, 4) for w in ws]
+
 def rename(x, tmap, cmap):
     """rename tables / columns in a step or expression record (C09: user objects named like generated ones)"""
     if isinstance(x, list):
@@ -209,7 +220,7 @@ CONFIG = {
     "C05": dict(relevant={"frame", "rqframe"}, alphabet=alph_c05, literal_first=True,
                 gen=dict(p_join=0.3, p_exclude=0.12), depth={"quick": 4, "thorough": 5}, nrand={"quick": 500, "thorough": 10000}),
     "C04": dict(relevant={"rows", "order", "ExecError", "Panic", "rejected-wellformed"}, alphabet=None,
-                slotmodels=[(slots_c04_top, 4), (slots_c04_group, 4)],
+                slotmodels=[(slots_c04_top, 4), (slots_c04_group, 4), (slots_c04_join, 4)],
                 gen=dict(p_window=0.5, p_group=0.3, p_join=0.05, p_append=0.0), depth={"quick": 0, "thorough": 0},
                 nrand={"quick": 400, "thorough": 8000}),
     "C09": dict(relevant={"rows", "frame", "order", "ExecError", "Panic", "rejected-wellformed"}, alphabet=alph_c09, first="table_0",
